@@ -10,8 +10,11 @@ def listing(d):
     try:
         for n in os.listdir(d):
             p = os.path.join(d, n)
-            if os.path.isfile(p):
-                out[n] = os.path.getsize(p)
+            try:
+                if os.path.isfile(p):
+                    out[n] = os.path.getsize(p)
+            except OSError:
+                pass     # renamed or removed while listing: not part of the snapshot
     except FileNotFoundError:
         pass
     return out
@@ -101,16 +104,57 @@ def dump_histories(sh, root, r, n_hist, rep_counts, viols, nontrivial, samples):
             open(os.path.join(d, "AuthorizationRules_foreign.txt"), "w").write("x")   # similar name, not a dump
             open(os.path.join(d, "other.json"), "w").write("{}")
         seen_order = []
-        for i in range(r.randrange(3, 25)):
+        nsteps = r.randrange(3, 25)
+        # the dumps share their directory with the rolling logs. Listing faults: an entry that cannot be stat'ed (dangling symlink) during
+        # some steps, or files being renamed by a concurrent roller while the directory is listed. The bound must hold all the same
+        # (whether a dump is written during the fault is not prescribed).
+        fault = r.choice([None, None, "dangling-symlink", "concurrent-renames"])
+        f_lo = r.randrange(0, nsteps); f_hi = r.randrange(f_lo, nsteps + 1)
+        stop_ren = threading.Event()
+        ren_thread = None
+        for i in range(nsteps):
+            faulty = fault is not None and f_lo <= i < f_hi
+            if fault == "dangling-symlink":
+                lp = os.path.join(d, "ProxyAgent.9.log")
+                if faulty and not os.path.islink(lp):
+                    os.symlink(os.path.join(d, "does-not-exist"), lp)
+                elif not faulty and os.path.islink(lp):
+                    os.unlink(lp)
+            if fault == "concurrent-renames" and faulty and ren_thread is None:
+                def roller(dd=d):
+                    names = [os.path.join(dd, "Roll.%d.log" % k) for k in range(6)]
+                    for nme in names[:5]:
+                        open(nme, "w").write("x")
+                    k = 0
+                    while not stop_ren.is_set():
+                        for j in range(5, 0, -1):
+                            try:
+                                os.rename(names[j - 1], names[j])
+                            except OSError:
+                                pass
+                        try:
+                            open(names[0], "w").write("x"); os.unlink(names[5])
+                        except OSError:
+                            pass
+                        k += 1
+                ren_thread = threading.Thread(target=roller); ren_thread.start()
+            if fault == "concurrent-renames" and not faulty and ren_thread is not None and not stop_ren.is_set():
+                stop_ren.set(); ren_thread.join()
             doc = {"imds": gen_rbac.gen_doc(r, dup_ok=False), "wireserver": gen_rbac.gen_doc(r, dup_ok=False)}
             before = sorted(n for n in listing(d) if re.match(r"^AuthorizationRules_.*\.json$", n))
             sh.call("rules_write_all", dir=d, max=cap, input=doc)
             after = sorted(n for n in listing(d) if re.match(r"^AuthorizationRules_.*\.json$", n))
             rep_counts["dump_ops"] = rep_counts.get("dump_ops", 0) + 1
             new = [n for n in after if n not in before]
-            wit = {"cap": cap, "before": before, "after": after}
+            wit = {"cap": cap, "before": before, "after": after, "listing_fault": fault if faulty else None}
             if len(after) > cap:
-                viols.append(["rule-dump-count-exceeds-cap", wit]); break
+                viols.append(["rule-dump-count-exceeds-cap" + (":during-listing-fault" if faulty else ""), wit]); break
+            if faulty:
+                rep_counts["dump_ops_during_listing_fault:%s" % fault] = rep_counts.get("dump_ops_during_listing_fault:%s" % fault, 0) + 1
+                if not new:
+                    rep_counts["dumps_skipped_during_listing_fault"] = rep_counts.get("dumps_skipped_during_listing_fault", 0) + 1
+                    time.sleep(0.002)
+                    continue
             if len(new) != 1:
                 viols.append(["rule-dump-not-written", wit]); break
             removed = [n for n in before if n not in after]
@@ -119,8 +163,11 @@ def dump_histories(sh, root, r, n_hist, rep_counts, viols, nontrivial, samples):
                 viols.append(["rule-dump-removed-is-not-the-oldest", wit]); break
             seen_order.append(new[0])
             time.sleep(0.002)
+        stop_ren.set()
+        if ren_thread is not None:
+            ren_thread.join()
         others = [n for n in listing(d) if not re.match(r"^AuthorizationRules_.*\.json$", n)]
-        nontrivial.append(common.sha(["dump", cap, len(seen_order) > cap]))
+        nontrivial.append(common.sha(["dump", cap, len(seen_order) > cap, fault]))
         if len(samples) < 4:
             samples.append({"kind": "rule dumps", "cap": cap, "writes": len(seen_order), "final": sorted(listing(d))})
 
@@ -180,7 +227,7 @@ def run(tier, rep):
     rep.coverage["rule"] = ("real RollingLogger / AuthorizationRulesForLogging::write_all / event_logger::start through the shim on scratch directories with small limits (size 256B-8KiB, count 1-6, caps 1-5); "
                             "histories = PRNG sequences of writes of 0..3x limit (write and write_many), restarts that find the files of the earlier run (same settings), event bursts above the queue bound, rule-set changes, "
                             "foreign files with similar names; the directory is listed after every operation (event directory: polled while the logger runs). invariants: files of the log <= count; no file larger than "
-                            "limit + last write; event files <= cap; rule dumps <= cap and the removed ones are the oldest by name. non-trivial = history that rolls more than count times or restarts, or reaches a cap; "
+                            "limit + last write; event files <= cap; rule dumps <= cap and the removed ones are the oldest by name, also while the shared directory cannot be listed cleanly (dangling symlink, files renamed by a concurrent roller). non-trivial = history that rolls more than count times or restarts, or reaches a cap; "
                             "distinct by (kind, limits, pattern class)")
     r = common.rng("c19", tier)
     root = tempfile.mkdtemp(prefix="gpa-verif.", dir="/var/tmp")
